@@ -32,28 +32,48 @@ fn gen_path(rng: &mut Rng, w: i32, h: i32, far: bool) -> Path {
         }
     };
     let mut first = true;
+    let mut last: Option<(f32, f32)> = None;
     for _ in 0..nsub {
         if !(first && rng.chance(0.1)) {
-            pb.move_to(c(rng, wf), c(rng, hf));
+            let (mx, my) = (c(rng, wf), c(rng, hf));
+            pb.move_to(mx, my);
+            last = Some((mx, my));
         }
         first = false;
         let n = rng.int(1, 5);
         for _ in 0..n {
             match rng.below(10) {
-                0 | 1 => pb.line_to(c(rng, wf), c(rng, hf)),
-                2 | 3 | 4 => pb.quad_to(c(rng, wf), c(rng, hf), c(rng, wf), c(rng, hf)),
+                0 | 1 => {
+                    let (x, y) = (c(rng, wf), c(rng, hf));
+                    pb.line_to(x, y);
+                    last = Some((x, y));
+                }
+                2 | 3 | 4 => {
+                    let (cx, cy) = (c(rng, wf), c(rng, hf));
+                    let end = if rng.chance(0.1) { last } else { None };
+                    let (x, y) = end.unwrap_or_else(|| (c(rng, wf), c(rng, hf)));
+                    pb.quad_to(cx, cy, x, y);
+                    last = Some((x, y));
+                }
                 5 | 6 | 7 => {
                     let (x1, y1) = (c(rng, wf), c(rng, hf));
                     // coincident control points now and then
                     let (x2, y2) = if rng.chance(0.15) { (x1, y1) } else { (c(rng, wf), c(rng, hf)) };
-                    pb.cubic_to(x1, y1, x2, y2, c(rng, wf), c(rng, hf))
+                    // a loop: the curve ends exactly where it starts
+                    let end = if rng.chance(0.12) { last } else { None };
+                    let (ex, ey) = end.unwrap_or_else(|| (c(rng, wf), c(rng, hf)));
+                    pb.cubic_to(x1, y1, x2, y2, ex, ey);
+                    last = Some((ex, ey));
+                    continue;
                 }
                 8 => {
                     let r = rng.range(0.5, wf.min(hf).max(2.)) as f32;
                     pb.arc(rng.range(0., wf) as f32, rng.range(0., hf) as f32, r, rng.range(-7., 7.) as f32, rng.range(-7., 7.) as f32);
+                    last = None;
                 }
                 _ => {
                     pb.close();
+                    last = None;
                     // a command right after close continues from the subpath start
                     if rng.chance(0.5) {
                         pb.quad_to(c(rng, wf), c(rng, hf), c(rng, wf), c(rng, hf));
